@@ -42,6 +42,7 @@ inductive Op where
   | nth (n : Int)
   | kth (k : Int)
   | conv
+  | convSame      -- color_converted_view<value_type of the view>: returns the view itself
   deriving Inhabited
 
 def parseOp (tok : String) : Option Op :=
@@ -52,7 +53,7 @@ def parseOp (tok : String) : Option Op :=
   | "R", some [] => some (.geo .rot90cw) | "C", some [] => some (.geo .rot90ccw) | "I", some [] => some (.geo .rot180)
   | "S", some [sx, sy] => some (.geo (.subsample sx sy))
   | "B", some [x0, y0, w, h] => some (.geo (.sub x0 y0 w h))
-  | "N", some [n] => some (.nth n) | "K", some [k] => some (.kth k) | "X", some [] => some .conv
+  | "N", some [n] => some (.nth n) | "K", some [k] => some (.kth k) | "X", some [] => some .conv | "Y", some [] => some .convSame
   | _, _ => none
 
 def parseOps (s : String) : Option (List Op) := if s = "-" then some [] else (s.splitOn "/").mapM parseOp
@@ -126,6 +127,10 @@ def idAt (r : Req) (a : Int) : Int :=
   let sx := rem / r.src.xs
   if rem % r.src.xs = 0 ∧ 0 ≤ sx ∧ sx < r.W ∧ 0 ≤ sy ∧ sy < r.H then sy * r.W + sx + 1 else -1
 
+/-- does a transformation turn the x-iterator into a step iterator?  (flipped_up_down_view and subimage_view keep the type) -/
+def xfSteps : Xform → Bool
+  | .flipUD => false | .sub _ _ _ _ => false | _ => true
+
 inductive Outcome where
   | view (v : View) (s : Sel)
   | vview (v : VView)
@@ -142,26 +147,30 @@ def runOps (r : Req) : Outcome :=
       | _ => .bad
     goV r.ops r.vsrc
   else
-    let rec go (ops : List Op) (v : View) (s : Sel) : Outcome :=
+    let chanAddr : Int → Int := fun k => if r.ki.planar then PLANE * k else r.ki.chan * k
+    let rec go (ops : List Op) (v : View) (s : Sel) (t : ChanSrc) : Outcome :=
       match ops with
       | [] => .view v s
-      | .geo t :: rest => if xyAtAsserts (facArgs t v.w v.h) v.w v.h then .assert "xy_at" else go rest (applyMem t v) s
+      | .geo tr :: rest =>
+        if xyAtAsserts (facArgs tr v.w v.h) v.w v.h then .assert "xy_at" else go rest (applyMem tr v) s { t with isStep := t.isStep || xfSteps tr }
       | .nth n :: rest =>
         if !r.ki.homog then .bad else
         if nth_channel_through_view = 1 ∧ call_ok 0 0 v.w v.h = 0 then .assert "operator" else
-        match s.chan with
-        | some _ => go rest v s                -- a gray view: nth_channel_view(v, 0) re-points at the same channel
-        | none =>
-          let off := if r.ki.planar then PLANE * n else r.ki.chan * n
-          go rest (nthChannel off v) { s with chan := some n.toNat, off := s.off + off }
+        -- the view `make` builds (Model.C02.chanViewMem, from the generated bodies); on a view that already is a
+        -- channel view (single interleaved channel) nth_channel_view(v, 0) re-points at the same channel
+        let addr : Int → Int := if s.chan.isSome then (fun k => r.ki.chan * k) else chanAddr
+        let s' := match s.chan with
+          | some _ => s
+          | none => { s with chan := some n.toNat, off := s.off + chanAddr n }
+        go rest (chanViewMem false t addr n v) s' (chanViewSrc false t)
       | .kth k :: _ =>
         if r.ki.basic then
           if nth_channel_through_view = 1 ∧ call_ok 0 0 v.w v.h = 0 then .assert "operator" else
-          let off := if r.ki.planar then PLANE * k else r.ki.chan * k
-          .view (nthChannel off v) { s with chan := some k.toNat, off := s.off + off }
+          .view (chanViewMem true t chanAddr k v) { s with chan := some k.toNat, off := s.off + chanAddr k }
         else .view v { s with chan := some k.toNat, adaptor := true }
       | .conv :: _ => .view v { s with conv := true }
-    go r.ops r.src {}
+      | .convSame :: _ => .view v s
+    go r.ops r.src {} { isStep := r.src.xs ≠ r.ki.pix, planar := r.ki.planar, nch := r.ki.nch, chanSize := r.ki.chan }
 
 def model (line : String) : String :=
   match parseReq (words line) with
